@@ -3,7 +3,7 @@ LEVEL = "exploration"
 QUICK_RUNS = 6400
 THOROUGH_BUDGET_S = 600
 RULE = (
-    "seeded scenarios over the 11 prange kernels. mode=sim (decides): the kernel's own Python source with its prange "
+    "seeded scenarios over the 11 prange kernels (plus, at 10% of runs, 13 kernels that are serial today - fold, the bit unpackers/packers - so that a kernel that BECOMES multi-threaded is covered). mode=sim (decides): the kernel's own Python source with its prange "
     "bodies outlined runs on T in 1..4 virtual threads (static split or size-k chunks in scheduler order), baton "
     "passed at seeded bytecode boundaries (switch probability 0.02..0.5 per run); oracles: result bit-identical to the "
     "same source on one virtual thread and to a numpy definition, and the access-set oracle (no element written by "
@@ -16,7 +16,12 @@ RULE = (
 )
 KERNELS = ["extract_tim", "extract_bpass", "mask_channels", "dedisperse", "subband", "invert_freq", "remove_zerodm",
            "compute_online_moments", "compute_online_moments_basic", "downsample_1d_mean_parallel", "downsample_2d_mean_parallel"]
-PROBES = [">=2-threads-alive-at-a-switch", "degenerate-shape", "chunks>threads", "compiled:threads>=8", "compiled:chunksize>0",
+# Kernels that are serial today; they are exercised at low rate so that one of them becoming multi-threaded
+# (the statement says "every multi-threaded kernel") does not escape: compiled at 1..16 threads, and - if their
+# source then contains a prange - on virtual threads too.
+EXTRA = ["fold", "unpack1_8_big", "unpack1_8_little", "unpack2_8_big", "unpack2_8_little", "unpack4_8_big", "unpack4_8_little",
+         "pack1_8_big", "pack1_8_little", "pack2_8_big", "pack2_8_little", "pack4_8_big", "pack4_8_little"]
+PROBES = [">=2-threads-alive-at-a-switch", "extra-kernel-run", "degenerate-shape", "chunks>threads", "compiled:threads>=8", "compiled:chunksize>0",
           "compiled:layer:workqueue", "compiled:layer:omp"] + [f"sim:{k}" for k in KERNELS] + [f"compiled:{k}" for k in KERNELS]
 COMPONENTS = {
     "real": ["mode=sim: the Python source of each kernel in sigpyproc/core/kernels.py (prange bodies outlined mechanically, nested njit helpers replaced by their py_func)",
